@@ -497,6 +497,11 @@ func isLocal(s *vSnap, a int) bool {
 
 // invariant evaluates the C17 invariant on the real pool content against the fake chain's state.
 func (c *vCase) invariant(s *vSnap, afterReorg bool, capped map[int]bool) {
+	c.invariantX(s, afterReorg, capped, "", "")
+}
+
+// invariantX: limClass/limDetail distinguish limit checks made after an operation that does not run the reorg.
+func (c *vCase) invariantX(s *vSnap, afterReorg bool, capped map[int]bool, limClass, limDetail string) {
 	o := c.o
 	seenHash := map[int]string{}
 	total := 0
@@ -610,14 +615,15 @@ func (c *vCase) invariant(s *vSnap, afterReorg bool, capped map[int]bool) {
 		if uint64(total) > cfg.GlobalSlots {
 			for a, l := range s.pending {
 				if !isLocal(s, a) && uint64(len(l)) > cfg.AccountSlots {
-					o.Fail(c.step, "limit-pending", fmt.Sprintf("pending=%d > GlobalSlots=%d and acct=%d holds %d > AccountSlots=%d", total, cfg.GlobalSlots, a, len(l), cfg.AccountSlots))
+					o.Fail(c.step, "limit-pending"+limClass, fmt.Sprintf("%spending=%d > GlobalSlots=%d and acct=%d holds %d > AccountSlots=%d", limDetail, total, cfg.GlobalSlots, a, len(l), cfg.AccountSlots))
 				}
 			}
 		}
 		if uint64(qtotal) > cfg.GlobalQueue {
 			for a, l := range s.queue {
 				if !isLocal(s, a) && len(l) > 0 {
-					o.Fail(c.step, "limit-queue", fmt.Sprintf("queued=%d > GlobalQueue=%d and non-local acct=%d still queued %d", qtotal, cfg.GlobalQueue, a, len(l)))
+					o.Fail(c.step, "limit-queue"+limClass, fmt.Sprintf("%squeued=%d > GlobalQueue=%d and non-local acct=%d still queued %d", limDetail, qtotal, cfg.GlobalQueue, a, len(l)))
+					break
 				}
 			}
 		}
@@ -780,7 +786,9 @@ func (c *vCase) opAdd(local bool, txs []*types.Transaction) {
 				onlyRemovals = false
 			}
 		}
-		if hasReplace && onlyRemovals && evicted > 0 {
+		if !hasReplace && onlyRemovals && evicted > 0 && c.overLimit(pre) {
+			o.Fail(c.step, "reject-deferred-truncation", fmt.Sprintf("pre_over_limit dropped=%d errs=%s before=[%s] after=[%s]", evicted, strings.Join(ecs, ","), pre.content(), post.content()))
+		} else if hasReplace && onlyRemovals && evicted > 0 {
 			o.Fail(c.step, "reject-evicts", fmt.Sprintf("err=replace_underpriced evicted=%d errs=%s before=[%s] after=[%s]", evicted, strings.Join(ecs, ","), pre.content(), post.content()))
 		} else {
 			o.Fail(c.step, "reject-changed", fmt.Sprintf("errs=%s before=[%s] after=[%s]", strings.Join(ecs, ","), pre.content(), post.content()))
@@ -788,6 +796,26 @@ func (c *vCase) opAdd(local bool, txs []*types.Transaction) {
 	}
 	c.localsExempt(pre, post, replacedBy, "add")
 	c.invariant(post, anyNew, capped)
+}
+
+// overLimit: the pool is above GlobalQueue/GlobalSlots in a way the next truncation will act on.
+func (c *vCase) overLimit(s *vSnap) bool {
+	cfg := c.pool.config
+	if uint64(s.statQ) > cfg.GlobalQueue {
+		for a, l := range s.queue {
+			if !isLocal(s, a) && len(l) > 0 {
+				return true
+			}
+		}
+	}
+	if uint64(s.statP) > cfg.GlobalSlots {
+		for a, l := range s.pending {
+			if !isLocal(s, a) && uint64(len(l)) > cfg.AccountSlots {
+				return true
+			}
+		}
+	}
+	return false
 }
 
 // localsExempt: no transaction of an account that was local before the operation disappears
@@ -899,7 +927,8 @@ func (c *vCase) opPrice(r *vRand) {
 			c.o.Fail(c.step, "setprice-kept", fmt.Sprintf("remote id=%d price=%s survives SetGasPrice(%d)", id, c.txs[id-1].tx.GasPrice(), price))
 		}
 	}
-	c.invariant(post, false, nil)
+	// SetGasPrice does not run the reorg: limits are checked under their own class
+	c.invariantX(post, !c.overLimit(pre), nil, "-deferred", "after=setprice ")
 }
 
 func (c *vCase) opExpire(r *vRand) {
